@@ -79,6 +79,10 @@ func getFromCache[T any](cfg *Config, key string) (T, error) {
 		return r, gerror.ExtMsgf(err, "key="+key)
 	}
 
+	if v == nil {
+		// a null value: the zero value of T (asserting a nil interface would panic).
+		return r, nil
+	}
 	return v.(T), nil
 }
 
